@@ -265,6 +265,83 @@ def apiRegisterStatus (table : List (String × Nat)) (dflt : Nat) (joined : List
   | none => 201
   | some k => resolveStatus table dflt k
 
+/-! ### store.go: `search` with a query (`applyQuery`) -/
+
+/-- what `CredentialStore.Store` (vcr/credential/store: an input here) indexed of one credential of a presentation -/
+structure CredIx where
+  id : String := ""
+  issuer : String := ""
+  type : Option String := none
+  subjectId : String := ""
+  props : List (String × String) := []
+  deriving Repr, Inhabited
+
+inductive QOp where
+  | eq (v : List Char)
+  | like (pattern : List Char)
+  | notNull
+  deriving DecidableEq, Repr
+
+def trimSpaces (l : List Char) : List Char :=
+  ((l.dropWhile Char.isWhitespace).reverse.dropWhile Char.isWhitespace).reverse
+
+/-- the wildcard translation of `applyQuery`: a lone `*` = IS NOT NULL; a leading / trailing `*` becomes `%` and the
+    comparison LIKE; anything else is compared with `=` -/
+def parseQueryValue (value : String) : QOp :=
+  let cs := value.toList
+  if trimSpaces cs = ['*'] then .notNull else
+  let (v, lk) := match cs with
+    | '*' :: rest => ('%' :: rest, true)
+    | _ => (cs, false)
+  match v.reverse with
+  | '*' :: restRev => .like (('%' :: restRev).reverse)
+  | _ => if lk then .like v else .eq v
+
+/-- SQL `LIKE`: `%` any sequence, `_` any one character; `ci` = ASCII case-insensitive (SQLite's LIKE) -/
+def likeChars (ci : Bool) : List Char → List Char → Bool
+  | [], s => s.isEmpty
+  | '%' :: ps, s => (List.range (s.length + 1)).any (fun k => likeChars ci ps (s.drop k))
+  | _ :: _, [] => false
+  | p :: ps, c :: t =>
+    (p == '_' || (if ci then p.toLower == c.toLower else p == c)) && likeChars ci ps t
+
+def opMatch (ci : Bool) : QOp → Option String → Bool
+  | .notNull, v => v.isSome
+  | .eq x, some v => v.toList == x
+  | .like p, some v => likeChars ci p v.toList
+  | _, none => false
+
+/-- the value of a credential COLUMN; `cols` is the regenerated `propertyColumns` map of `applyQuery`
+    (`none` = the path is not a column but looked up in `credential_prop`) -/
+def CredIx.column (cols : List (String × String)) (c : CredIx) (path : String) : Option (Option String) :=
+  match alGet cols path with
+  | none => none
+  | some col =>
+    if col = "credential.id" then some (some c.id)
+    else if col = "credential.issuer" then some (some c.issuer)
+    else if col = "credential.type" then some c.type
+    else if col = "credential.subject_id" then some (some c.subjectId)
+    else some none
+
+/-- one `jsonPath = value` term against ONE credential -/
+def termMatch (cols : List (String × String)) (ci : Bool) (c : CredIx) (path value : String) : Bool :=
+  match c.column cols path with
+  | some v => opMatch ci (parseQueryValue value) v
+  | none => c.props.any (fun p => p.1 == path && opMatch ci (parseQueryValue value) (some p.2))
+
+/-- `sqlStore.search(serviceID, query, false)`: the validated, unexpired rows of the list; with a non-empty query only
+    those that have ONE credential fulfilling EVERY term (inner joins on the same `credential` row) -/
+def Store.searchQ (s : Store) (now : Nat) (ix : Row → List CredIx) (cols : List (String × String)) (ci : Bool)
+    (q : List (String × String)) : List Row :=
+  (s.search now).filter (fun r => q.isEmpty || (ix r).any (fun c => q.all (fun t => termMatch cols ci c t.1 t.2)))
+
+/-- `Module.Search(serviceID, query)` -/
+def Node.searchQ (n : Node) (sid : String) (now : Nat) (ix : Row → List CredIx) (cols : List (String × String)) (ci : Bool)
+    (q : List (String × String)) : Option (List Row) :=
+  match n.defs.all.get sid with
+  | none => none
+  | some _ => some ((n.stores sid).searchQ now ix cols ci q)
+
 /-! ### client.go: `clientUpdater.update` -/
 
 /-- one round over all configured services, in the order Go iterates the map: every service is visited, the
